@@ -1,4 +1,4 @@
-CONSTANTS MaxK = 2 Values = {2} Codes = {5} Scope = "all" Mutant = "none"
+CONSTANTS MaxK = 1 Values = {2} Codes = {5} Scope = "all" Mutant = "none"
 SPECIFICATION Spec
 INVARIANT Inv_Reject
 INVARIANT Inv_RejectKind
@@ -11,4 +11,3 @@ INVARIANT Inv_SameChannel
 INVARIANT Inv_Result
 INVARIANT Inv_Metadata
 INVARIANT Inv_Error
-PROPERTY Live
